@@ -8,6 +8,8 @@
    (ORestart = clean stop, new node on the same storage; it may be placed anywhere in the history)
    113 a delivered transaction is delivered again as new after the restart
    121 a transaction already reported safe is reported safe again
+   127 the restarted node's delay check notifies about a transaction that is confirmed in the chain (a stale copy of
+       the unconfirmed set came back: it is tracked again although its confirmation was delivered)
    153 its later confirmation is not an update carrying the proof
    171 the stored copy of a delivered transaction cannot be fetched back by txid
    101 / 102 / 103 / 123 the flags did not survive: after the restart a transaction is reported safe although it
@@ -19,8 +21,8 @@ From V.proofs Require Import TxFlow_Proofs.
 
 Theorem C11_txflow :
   forall (delay : Z) (ops : list op),
-    flow_valid delay ops = true -> never_objects delay [101; 102; 103; 113; 121; 123; 153; 171] ops.
-Proof. exact (txflow_never_objects_any [101; 102; 103; 113; 121; 123; 153; 171]). Qed.
+    flow_valid delay ops = true -> never_objects delay [101; 102; 103; 113; 121; 123; 127; 153; 171] ops.
+Proof. exact (txflow_never_objects_any [101; 102; 103; 113; 121; 123; 127; 153; 171]). Qed.
 Print Assumptions C11_txflow.
 
 (* Non-vacuity: a valid history with a three-way conflict, a safe report, a confirmation that
